@@ -43,6 +43,19 @@ void condition_variable_wait(struct condition_variable*, struct lock*) {
 void condition_variable_notify_all(struct condition_variable*) { ++g_notify; }
 void* memory_alloc(size_t n, enum AllocatorHint) { return malloc(n); }
 void memory_free(void* p) { free(p); }
+// the rest of what channel.c could reasonably use from the logger and the platform layer (it uses none of it today): a change that
+// adds a log line or a time stamp must not break this build
+void aq_logger(int, const char*, int, const char*, const char*, ...) {}
+void logger_set_reporter(void (*)(int, const char*, int, const char*, const char*)) {}
+void* memory_realloc(void* p, size_t n, enum AllocatorHint) { return realloc(p, n); }
+void clock_init(struct clock* c) { memset(c, 0, sizeof *c); }
+uint64_t clock_tic(struct clock*) { return 0; }
+int64_t clock_toc(struct clock*) { return 0; }
+double clock_toc_ms(struct clock*) { return 0; }
+int8_t clock_cmp(struct clock*, uint64_t) { return 0; }
+int8_t clock_cmp_now(struct clock*) { return 0; }
+void clock_shift_ms(struct clock*, double) {}
+void clock_sleep_ms(struct clock*, float) {}
 }
 
 // ---------------------------------------------------------------- configuration
